@@ -11,6 +11,7 @@ import os
 from harness.sched import core
 from harness import names
 
+STATE_WRITE_YIELD = [False]   # set by library._run: writes of the coordinator's state fields are scheduling points
 PIN_TRACKING = [False]     # set by library._run when upload buffers are tracked (C10 / C11)
 
 MODS = ['futures', 'utils', 'download', 'manager', 'bandwidth', 'tasks', 'upload', 'copies', 'delete']
@@ -170,6 +171,25 @@ class Instr:
             self._patch(cls, name, maker(orig))
 
         # -- coordinator ---------------------------------------------------
+        if STATE_WRITE_YIELD[0]:
+            # The interpreter can switch threads between two attribute writes of a critical section;
+            # readers that do not take the lock (done(), status, exception, result()) can then see
+            # the state half-written.  Make every write of a state field a scheduling point.
+            fields = {CN['status'], CN['exception'], CN['result']}
+
+            def yielding_setattr(self_, name, value):
+                object.__setattr__(self_, name, value)
+                me = s.me()
+                if name in fields and me is not None and not s.killing:
+                    if me.name.startswith('canceller'):
+                        # the cancelling user thread lingers after each of its state writes (a preemption
+                        # right there): everybody else runs on what is written so far
+                        start = s.step
+                        s.block_until(lambda: s.others_idle(me) or s.step - start >= 60, 'state-write linger')
+                    else:
+                        s.yield_point('state-write')
+            self._patch(TC, '__setattr__', yielding_setattr)
+
         def mk_set_result(orig):
             def set_result(self_, result):
                 orig(self_, result)
